@@ -119,8 +119,8 @@ PROPERTY = {
         level='other',
         explanation='per layer: BatchNorm fusing/folding algebra (all four bias / affine combinations), weight copy, open-mask forward identity, user '
                     'objects untouched, train/eval mode restored by the constructors (convert() under an assumed contract)',
-        not_decided=['SuperNet import', 'whole-model statements (the torch.fx passes that pick which BatchNorm follows which layer, deep copy of the user '
-                     'model by tracing)', 'export-immediately-returns-the-original-architecture beyond the per-layer sizes'],
+        not_decided=['whole-model statements over ALL architectures: PIT / SuperNet / MPS constructors run from source (tracing, fusion, mode handling) only on the enumerated '
+                     'architectures of contracts/whole_pit.py, whole_supernet.py, whole_mps.py (bounded in topology)', 'multi-input forward, autoconvert off with user-placed layers'],
         trusted=['torch.rsqrt as an uninterpreted positive function; BatchNorm inference formula in pyvc/torchlib.py'],
         assumptions=['eval mode (running statistics) for the function comparison, as in the statement'],
     ),
